@@ -192,6 +192,8 @@ class SQ(object):
         self.tag, self.variant, self.log = tag, variant, log
         self.calls, self.n, self.v = 0, 0, []
         self.boom_gen = boom_gen
+        if variant == "cache":
+            self.is_cache = True  # what lena.flow.Cache sets: Split then reads the whole flow at once
 
     def state(self):
         return {"v": list(self.v), "n": self.n, "calls": self.calls, "total": 0}
@@ -300,7 +302,7 @@ def _mk_nest(sp, tag, log):
         def run(flow):
             buf = list(flow)
             log.append((tag, ["run", list(buf)]))
-            return orig_run(iter(buf))
+            return orig_run(buf)  # the enclosing Split hands a list over (Sequence.run -> flow_to_iter)
         ns.run = run
     return ns
 
@@ -364,6 +366,39 @@ def _build(specs, log):
     return [_wrap(sp, _mk_el(sp, i, log)) for i, sp in enumerate(specs)]
 
 
+FLOW_KINDS = ["list", "iter", "tuple", "gen", "range"]
+MAX_OUT = 3000
+
+
+class _Endless(Exception):
+    """the run yields without end (more than MAX_OUT values for a flow of at most a dozen)"""
+
+
+def _as_flow(flow, k):
+    """the flow as the k-th kind of argument: a list, a one-shot iterator, a tuple, a generator, or a range when
+    the values are consecutive integers (else a list).  tests/core/test_split.py hands lists over."""
+    kind = FLOW_KINDS[k % len(FLOW_KINDS)]
+    flow = list(flow)
+    if kind == "iter":
+        return iter(flow)
+    if kind == "tuple":
+        return tuple(flow)
+    if kind == "gen":
+        return (x for x in flow)
+    if kind == "range" and flow and all(type(x) is int for x in flow) and flow == list(range(flow[0], flow[0] + len(flow))):
+        return range(flow[0], flow[0] + len(flow))
+    return flow
+
+
+def _drain(gen, out, on_value=None):
+    for v in gen:
+        out.append(v)
+        if on_value:
+            on_value(v)
+        if len(out) > MAX_OUT:
+            raise _Endless()
+
+
 def _inv(log, n):
     """per branch: the method invocations it received"""
     return [[ev for (t, ev) in log if t == i and ev[0] != "out"] for i in range(n)]
@@ -384,6 +419,20 @@ def _ptrace(log, n):
 
 # ----------------------------------------------------------------------------------------
 # the reference schedule: the property statement, executed on fresh branch elements
+
+def _has_cache(sp):
+    """a plain-Sequence branch that contains a Cache(-like element), also inside a nested Split run per block"""
+    if sp["k"] == "sq":
+        return sp.get("v") == "cache"
+    if sp["k"] == "nest" and _kind(sp) == "sequence":
+        return any(isp["k"] == "sq" and isp.get("v") == "cache" for isp in sp["inner"])
+    return False
+
+
+def _eff_bufsize(specs, bufsize):
+    """'Split reads the whole flow at once if a Sequence in it contains a Cache' (Split.__init__)"""
+    return None if any(_has_cache(sp) for sp in specs) else bufsize
+
 
 def _blocks(flow, bufsize):
     if bufsize is None:
@@ -419,7 +468,7 @@ def _ref_schedule(specs, els, bufsize, flow, out):
     kinds = [_kind(sp) for sp in specs]
     lam = [sp["k"] == "sq" and sp.get("v") == "lam" for sp in specs]
     active = [True] * len(specs)
-    blocks = _blocks(flow, bufsize)
+    blocks = _blocks(flow, _eff_bufsize(specs, bufsize))
 
     # documented conversion of a tuple: the flow is preprocessed by what stands before the element, the
     # results are postprocessed by what stands after it (FillComputeSeq / FillRequestSeq / Sequence docstrings)
@@ -444,7 +493,7 @@ def _ref_schedule(specs, els, bufsize, flow, out):
         if lam[i]:
             emit(i, (els[i](x) for x in blk))
         else:
-            emit(i, els[i].run(iter(blk)))
+            emit(i, els[i].run(list(blk)))
 
     for blk in blocks:
         for i, el in enumerate(els):
@@ -507,7 +556,7 @@ def _exhaustive_runs(max_len_by_n, spec_every=1):
             for brs in itertools.product(al, repeat=l):
                 for cb in (True, False):
                     cnt += 1
-                    yield {"op": "run", "brs": [dict(b) for b in brs], "flow": flow,
+                    yield {"op": "run", "brs": [dict(b) for b in brs], "flow": flow, "fk": cnt,
                            "bufsizes": _bufsizes(n), "copy_buf": cb, "spec": cnt % spec_every == 0}
 
 
@@ -564,8 +613,12 @@ def _rand_run(rng, maxbr, maxn, spec_p=1.0):
     brs = [_rand_spec(rng, len(flow)) for _ in range(l)]
     if brs and rng.random() < 0.25:
         brs[rng.randrange(len(brs))] = _rand_nest(rng, len(flow))
-    return {"op": "run", "brs": brs, "flow": flow,
-            "bufsizes": _bufsizes(len(flow)), "copy_buf": rng.random() < 0.5, "spec": rng.random() < spec_p}
+    bss = _bufsizes(len(flow))
+    if rng.random() < 0.3:
+        # block sizes between len+1 and 1000 and above 1000 (threshold-type edits)
+        bss = bss + [rng.randint(len(flow) + 2, 999), rng.randint(1001, 5000)]
+    return {"op": "run", "brs": brs, "flow": flow, "fk": rng.randrange(5),
+            "bufsizes": bss, "copy_buf": rng.random() < 0.5, "spec": rng.random() < spec_p}
 
 
 BUFARGS = [None, {"int": 1}, {"int": 2}, {"int": 3}, {"int": 1000}, {"int": 0}, {"int": -1}, {"float_int": 2},
@@ -605,7 +658,8 @@ def _rand_runx(rng, maxbr, maxn):
         brs.append(sp)
     r = rng.random()
     bufarg = rng.choice(BUFARGS) if r < 0.15 else rng.choice([None, {"int": 1}, {"int": 2}, {"int": 3}, {"int": 1000}])
-    return {"op": "runx", "brs": brs, "flows": flows, "bufarg": bufarg, "copy_buf": rng.random() < 0.5}
+    return {"op": "runx", "brs": brs, "flows": flows, "bufarg": bufarg, "copy_buf": rng.random() < 0.5,
+            "fk": rng.randrange(5)}
 
 
 ZKEYS = ["a", "b", "zip"]  # sorted key alphabet of the contexts of zipctx cases; "zip" is key number 2
@@ -878,7 +932,7 @@ def gen_cases(ctx):
 # ----------------------------------------------------------------------------------------
 # the real code
 
-def _run_split(specs, flow, bufsize, copy_buf, spec=False):
+def _run_split(specs, flow, bufsize, copy_buf, spec=False, fk=1):
     import lena.core
     log = []
     try:
@@ -888,9 +942,9 @@ def _run_split(specs, flow, bufsize, copy_buf, spec=False):
         return {"e": exc_name(e), "phase": "init"}
     out = []
     try:
-        for v in s.run(iter(flow)):
-            out.append(v)
-            log.append((_owner(v), ["out", v]))
+        _drain(s.run(_as_flow(flow, fk)), out, lambda v: log.append((_owner(v), ["out", v])))
+    except _Endless:
+        return {"e": "Other:EndlessOutput", "phase": "run", "out": canon(out[:12]), "inv": []}
     except Exception as e:
         return {"e": exc_name(e), "phase": "run", "out": canon(out), "inv": canon(_inv(log, len(specs)))}
     res = {"out": canon(out), "inv": canon(_inv(log, len(specs)))}
@@ -926,7 +980,10 @@ def _runx_on(split_or_none, specs, els, log, flows, runner):
             runner(flow, out)
         except AssertionError:
             term = "assert"
-        except Exception as e:
+        except _Endless:
+            term = ["raised", None, "Other:EndlessOutput"]
+            out = out[:12]
+        except (Exception, KeyboardInterrupt) as e:
             last = log[-1][0] if len(log) > start else None
             if last is not None and last >= 100:
                 last = last // 100 - 1  # an element of a nested Split: the exception leaves through that branch
@@ -951,9 +1008,11 @@ def _runx_impl(case):
     except Exception as e:
         return {"init": {"e": exc_name(e)}}
 
+    fk = [case.get("fk", 1)]
+
     def runner(flow, out):
-        for v in s.run(iter(flow)):
-            out.append(v)
+        fk[0] += 1
+        _drain(s.run(_as_flow(flow, fk[0])), out)
     return {"runs": _runx_on(s, specs, els, log, case["flows"], runner)}
 
 
@@ -1339,8 +1398,9 @@ def _unp(res):
 def _run_impl(case):
     op = case["op"]
     if op == "run":
-        return {"runs": [_run_split(case["brs"], case["flow"], bs, case["copy_buf"], bool(case.get("spec")))
-                         for bs in case["bufsizes"]]}
+        fk = case.get("fk", 1)
+        return {"runs": [_run_split(case["brs"], case["flow"], bs, case["copy_buf"], bool(case.get("spec")), fk + j)
+                         for j, bs in enumerate(case["bufsizes"])]}
     if op == "methods":
         return _methods_impl(case)
     if op == "runx":
@@ -1410,8 +1470,9 @@ def _is_lam(sp):
 
 def _cmp_run(specs, r, m, what, flow=None, bufsize=None):
     # the specification side of the theorems (`blocks`, `Split.schedule`) against Python / the real code
-    if flow is not None and m.get("blocks") != _blocks(flow, bufsize):
-        return f"{what}: Lean `blocks` gives {m.get('blocks')} but the flow is cut into {_blocks(flow, bufsize)}"
+    if flow is not None and m.get("blocks") != _blocks(flow, _eff_bufsize(specs, bufsize)):
+        return (f"{what}: Lean `blocks` (after `cacheRule`) gives {m.get('blocks')} but the flow is cut into "
+                f"{_blocks(flow, _eff_bufsize(specs, bufsize))}")
     if "out" in r and m.get("spec_out") != r["out"]:
         return f"{what}: impl yields {r['out']} vs Lean `Split.schedule` {m.get('spec_out')}"
     if "e" in r:
@@ -1670,12 +1731,12 @@ def _oracle_run(case, res):
             base = 100 * (i + 1)
             mine = [v for v in r["out"] if _tag_of(v) is not None and base <= _tag_of(v) < base + 100]
             try:
-                alone = _run_alone(sp, i, flow, bs)
+                alone = _run_alone(sp, i, flow, _eff_bufsize(specs, bs))
             except Exception as e:
                 return f"[nested-raised] {what}: the Split nested as branch {i}, run alone with bufsize={bs}, raised {exc_name(e)}: {e}"
             if mine != alone:
                 return (f"[nested-same-meaning] {what}: the nested Split (branch {i}) yields {mine} there, but run alone "
-                        f"with bufsize={bs} on the same flow it yields {alone}")
+                        f"with bufsize={_eff_bufsize(specs, bs)} on the same flow it yields {alone}")
         for i, sp in enumerate(specs):
             if sp["k"] in ("sum", "nest"):
                 continue
@@ -1743,7 +1804,9 @@ def _run_alone(sp, tag, flow, bufsize):
     log = []
     base = 100 * (tag + 1)
     inner = [_wrap(isp, _mk_el(isp, base + j, log)) for j, isp in enumerate(sp["inner"])]
-    return canon(list(lc.Split(inner, bufsize=bufsize).run(iter(flow))))
+    out = []
+    _drain(lc.Split(inner, bufsize=bufsize).run(list(flow)), out)
+    return canon(out)
 
 
 def _ref_fill_all(els, flow):
